@@ -552,6 +552,39 @@ func FamNegOps(t Type, emit func(Gen)) {
 	}
 }
 
+// FamCompLit: composite literals - two literals of one type with different (and with equal) elements, a literal
+// modified after another was made from the same constants, literals copied, passed and indexed.
+func FamCompLit(t Type, emit func(Gen)) {
+	a, b := Var{Name: "a"}, Var{Name: "b"}
+	m := int64(1)<<uint(min(t.W-1, 3)) - 1
+	st := Type{Name: "P", Fields: []Type{t, t}, Names: []string{"x", "y"}}
+	at := t
+	at.N = 3
+	p, q := Var{Name: "p"}, Var{Name: "q"}
+	sLits := [][2][]int64{{{1 & m, 2 & m}, {3 & m, 4 & m}}, {{1 & m, 2 & m}, {1 & m, 2 & m}}, {{0, m}, {m, 0}}}
+	for _, l := range sLits {
+		prog := func(body []Stmt, rts []Type) {
+			emit(Gen{"composite-literal-struct", &Program{Structs: []Type{st}, Funcs: []Func{mainFn(ab(t), rts, body)}}})
+		}
+		prog([]Stmt{Define{Name: "p", X: CompLit{T: st, Vals: l[0]}}, Define{Name: "q", X: CompLit{T: st, Vals: l[1]}},
+			Return{X: []Expr{Bin{Op: "+", L: Bin{Op: "+", L: Field{X: p, Name: "y"}, R: Field{X: q, Name: "y"}}, R: a}, Bin{Op: "^", L: Field{X: p, Name: "x"}, R: Bin{Op: "+", L: Field{X: q, Name: "x"}, R: b}}}}}, []Type{t, t})
+		prog([]Stmt{Define{Name: "p", X: CompLit{T: st, Vals: l[0]}}, Assign{Name: "p", Field: "x", X: a}, Define{Name: "q", X: CompLit{T: st, Vals: l[1]}},
+			If{Cond: Bin{Op: "<", L: a, R: b}, Then: []Stmt{Assign{Name: "q", Field: "y", X: b}}},
+			Return{X: []Expr{Field{X: p, Name: "x"}, Field{X: p, Name: "y"}, Field{X: q, Name: "x"}, Field{X: q, Name: "y"}}}}, []Type{t, t, t, t})
+	}
+	aLits := [][2][]int64{{{1 & m, 2 & m, 3 & m}, {4 & m, 5 & m, 6 & m}}, {{1 & m, 2 & m, 3 & m}, {1 & m, 2 & m, 3 & m}}, {{m, 0, m}, {0, m, 0}}}
+	for _, l := range aLits {
+		prog := func(body []Stmt, rts []Type) {
+			emit(Gen{"composite-literal-array", &Program{Funcs: []Func{mainFn(ab(t), rts, body)}}})
+		}
+		prog([]Stmt{Define{Name: "p", X: CompLit{T: at, Vals: l[0]}}, Define{Name: "q", X: CompLit{T: at, Vals: l[1]}},
+			Return{X: []Expr{Bin{Op: "+", L: Bin{Op: "+", L: Index{A: p, Idx: Lit{V: 1}}, R: Index{A: q, Idx: Lit{V: 1}}}, R: a}, Bin{Op: "^", L: Index{A: p, Idx: Lit{V: 2}}, R: Bin{Op: "+", L: Index{A: q, Idx: Lit{V: 0}}, R: b}}}}}, []Type{t, t})
+		prog([]Stmt{Define{Name: "p", X: CompLit{T: at, Vals: l[0]}}, Assign{Name: "p", Idx: Lit{V: 0}, X: a}, Define{Name: "q", X: CompLit{T: at, Vals: l[1]}},
+			For{Var: "i", From: 0, To: 3, Body: []Stmt{Assign{Name: "q", Idx: Var{Name: "i"}, X: Bin{Op: "+", L: Index{A: q, Idx: Var{Name: "i"}}, R: Index{A: p, Idx: Var{Name: "i"}}}}}},
+			Return{X: []Expr{Index{A: p, Idx: Lit{V: 0}}, Index{A: q, Idx: Lit{V: 0}}, Index{A: q, Idx: Lit{V: 1}}, Index{A: q, Idx: Lit{V: 2}}}}}, []Type{t, t, t, t})
+	}
+}
+
 // FamCall: helper functions with 1..3 results, arguments aliasing the same variable.
 func FamCall(t Type, emit func(Gen)) {
 	a, b, u, v := Var{Name: "a"}, Var{Name: "b"}, Var{Name: "u"}, Var{Name: "v"}
@@ -646,6 +679,7 @@ func Statements(quick bool, emit func(Gen)) {
 		FamNestedLoop(t, emit)
 		FamArray(t, emit)
 		FamCall(t, emit)
+		FamCompLit(t, emit)
 		FamGlobals(t, emit)
 	}
 	nestTypes := []Type{Uint(3)}
